@@ -187,7 +187,7 @@ func genGrammar(t *rapid.T) string {
 var mutKinds = []string{"upper-repo", "empty-component", "double-slash", "trail-slash", "trail-colon", "trail-at",
 	"bad-tag-char", "long-tag", "short-hex", "unknown-scheme", "ocifile", "prefix-junk", "suffix-junk", "insert-byte",
 	"delete-byte", "dup-at", "dup-colon", "underscore-host", "lead-sep", "nonhex", "newline", "space", "upper-scheme",
-	"empty-alg", "lead-dash-tag"}
+	"empty-alg", "lead-dash-tag", "empty-scheme", "scheme-variant", "scheme-sep-variant"}
 
 // genMutation applies one grammar-leaving edit to a grammar string. (Whether
 // the result really is outside the grammar is decided by the reference model,
@@ -315,6 +315,27 @@ func genMutation(t *rapid.T) (string, string) {
 			s = s[:i]
 		}
 		s += "@" + rapid.SampledFrom([]string{":", "1sha:", "sha-:", "-sha:", "sha..x:", "sha256"}).Draw(t, "ea") + strings.Repeat("b", 64)
+	case "empty-scheme":
+		// an empty scheme in front of something that is itself a reference or host
+		if i := strings.Index(s, "://"); i >= 0 {
+			s = s[i:]
+		} else {
+			s = "://" + s
+		}
+	case "scheme-variant":
+		sc := rapid.SampledFrom([]string{"oci2", "ocidir2", "oci-dir", "oci.dir", "oci+dir", "oci_dir", "OciDir", "ocidiR", "0", "é", " ocidir", "ocidir ", "reg", "docker"}).Draw(t, "scv")
+		if i := strings.Index(s, "://"); i >= 0 {
+			s = sc + s[i:]
+		} else {
+			s = sc + "://" + s
+		}
+	case "scheme-sep-variant":
+		sep := rapid.SampledFrom([]string{":/", ":", ":///", "//", ":\\/", "://://", " ://", ":// "}).Draw(t, "ssv")
+		if i := strings.Index(s, "://"); i >= 0 {
+			s = s[:i] + sep + s[i+3:]
+		} else {
+			s = rapid.SampledFrom([]string{"ocidir", "ocifile", "x", ""}).Draw(t, "ssc") + sep + s
+		}
 	case "lead-dash-tag":
 		if i := strings.IndexByte(s, '@'); i >= 0 {
 			s = s[:i]
@@ -514,7 +535,7 @@ func FuzzVerifRef(f *testing.F) {
 	ev := evid.For(prop)
 	for _, s := range []string{"ocidir://", "ocifile://a", "ocidir://a:b@sha256:" + strings.Repeat("a", 64), "localhost", "localhost:5000/a",
 		"a.b/c:d@sha256:" + strings.Repeat("0", 64), "@", ":", "A/b", "a-B-c/d", "docker.io/x", "index.docker.io/x/y", "registry-1.docker.io/x",
-		"a_b.c/d", "a.:1/b", "a./b", "x://y", "sha512:" + strings.Repeat("f", 128)} {
+		"a_b.c/d", "a.:1/b", "a./b", "x://y", "://alpine", "://a.b/c:d", "://localhost:5000", "ocidir:/x", "ocidir:x", "://", "oci2://x", "Ocidir://x", "sha512:" + strings.Repeat("f", 128)} {
 		f.Add(s)
 	}
 	f.Fuzz(func(t *testing.T, s string) {
